@@ -201,7 +201,7 @@ func c08Alphabet(w *World, tier string) []Op {
 	if tier == "thorough" {
 		protos = []string{"PROTOCOL_IBC", "PROTOCOL_CCTP", "PROTOCOL_HYPERLANE", "PROTOCOL_INTERNAL"}
 	}
-	for _, p := range append(append([]string{}, protos...), "PROTOCOL_UNSUPPORTED", "PROTOCOL_FOO", "2", "") {
+	for _, p := range append(append([]string{}, protos...), "PROTOCOL_UNSUPPORTED", "PROTOCOL_FOO", "2", "", "4294967298" /* 2^32+2: no int32 */) {
 		ops = append(ops, w.OpPauseProtocol(p), w.OpUnpauseProtocol(p))
 	}
 	type batch struct {
